@@ -212,7 +212,7 @@ Proof.
     assert (GL : forall t lid, In lid (group_lids t (w_docs x) (w_lids x)) -> lid < nids (getf st (w_g x))).
     { intros t lid HL. apply WL; [lia|]. eapply group_lids_sub; eauto. }
     assert (FR : forall f, nth_error (fracs st) (w_g x) = Some f -> idx_ok f ->
-                 idx_ok (mkFrac (f_act f) (f_sld f) (f_ro f) (f_blocks f) (f_pos f) (f_ids f)
+                 idx_ok (mkFrac (f_act f) (f_sld f) (f_ro f) (f_blocks f) (f_pos f) (f_ldocs f)
                    (upd_tok (nth (w_k x) (put_order (c_ver c) (cur_bulk c w x)) 0%N)
                       (fun y => mkTl (tl_tok y) (tl_sorted y)
                          (tl_queue y ++ group_lids (nth (w_k x) (put_order (c_ver c) (cur_bulk c w x)) 0%N) (w_docs x) (w_lids x)))
@@ -273,15 +273,15 @@ Proof.
   intros HI. unfold step_sui. destruct (sui_enabled st); simpl; auto.
   pose proof (IInv_setf_same st (shift st)
      (fun f => if replaced (f_seal f)
-               then mkFrac (f_act f) (f_sld f) (f_ro f) (f_blocks f) (f_pos f) (f_ids f) (f_toks f) (f_from f) (f_to f)
+               then mkFrac (f_act f) (f_sld f) (f_ro f) (f_blocks f) (f_pos f) (f_ldocs f) (f_toks f) (f_from f) (f_to f)
                            (f_total f) (f_wg f) (f_rl f) (f_subs f) (f_seal f) (f_sdocs f) true
-               else mkFrac false false (f_ro f) (f_blocks f) (f_pos f) (f_ids f) (f_toks f) (f_from f) (f_to f)
+               else mkFrac false false (f_ro f) (f_blocks f) (f_pos f) (f_ldocs f) (f_toks f) (f_from f) (f_to f)
                            (f_total f) (f_wg f) (f_rl f) (f_subs f) (f_seal f) (f_sdocs f) true)) as H.
   assert (HH : IInv (setf st (shift st)
      (fun f => if replaced (f_seal f)
-               then mkFrac (f_act f) (f_sld f) (f_ro f) (f_blocks f) (f_pos f) (f_ids f) (f_toks f) (f_from f) (f_to f)
+               then mkFrac (f_act f) (f_sld f) (f_ro f) (f_blocks f) (f_pos f) (f_ldocs f) (f_toks f) (f_from f) (f_to f)
                            (f_total f) (f_wg f) (f_rl f) (f_subs f) (f_seal f) (f_sdocs f) true
-               else mkFrac false false (f_ro f) (f_blocks f) (f_pos f) (f_ids f) (f_toks f) (f_from f) (f_to f)
+               else mkFrac false false (f_ro f) (f_blocks f) (f_pos f) (f_ldocs f) (f_toks f) (f_from f) (f_to f)
                            (f_total f) (f_wg f) (f_rl f) (f_subs f) (f_seal f) (f_sdocs f) true))).
   { apply H; auto; intros x; destruct (replaced (f_seal x)); reflexivity. }
   destruct HH as [[A AL] B]. split; auto.
